@@ -38,10 +38,19 @@ def _gen_file(rng, wellformed):
     nfiles = rng.range(0, 5)
     norig = rng.range(0, 4)
     pre = []
+    # FILE / INLINE_ORIGIN numbering: dense from 0 (what the Linux dump_syms writes), or starting above 0 and / or with gaps (what other producers write)
+    fb, fs_ = (0, 1) if rng.chance(3, 5) else (rng.choice([0, 1, 3]), rng.choice([1, 2, 5, 1000]))
+    ob, os_ = (0, 1) if rng.chance(3, 5) else (rng.choice([0, 1, 2]), rng.choice([1, 3, 400]))
+
+    def fid(i):
+        return fb + fs_ * i
+
+    def oid(i):
+        return ob + os_ * i
     for i in range(nfiles):
-        pre.append("FILE %d %s" % (i, rng.choice(["a.c", "dir/b.cpp", "x" * rng.range(1, 40), "/abs/path/with space.h", "hg:hg.mozilla.org/c:f.cc:abc"])))
+        pre.append("FILE %d %s" % (fid(i), rng.choice(["a.c", "dir/b.cpp", "x" * rng.range(1, 40), "/abs/path/with space.h", "hg:hg.mozilla.org/c:f.cc:abc"])))
     for i in range(norig):
-        pre.append("INLINE_ORIGIN %d %s" % (i, rng.choice(["inl()", "ns::f(int, char)", "g", "long_" * rng.range(1, 10)])))
+        pre.append("INLINE_ORIGIN %d %s" % (oid(i), rng.choice(["inl()", "ns::f(int, char)", "g", "long_" * rng.range(1, 10)])))
     if rng.chance(1, 3):
         pre.insert(0, "INFO CODE_ID AABBCC%02X name.so" % rng.below(256))
     if not wellformed and rng.chance(1, 2):
@@ -93,7 +102,7 @@ def _gen_file(rng, wellformed):
                     for b in buckets:
                         if b:
                             rng_shuffle(rng, b)
-                            recs.append((depth, rng.below(500), rng.below(max(1, nfiles)) if nfiles else 0, rng.below(norig), b))
+                            recs.append((depth, rng.below(500), fid(rng.below(max(1, nfiles))) if nfiles else 0, oid(rng.below(norig)), b))
                     for (a0, a1) in ranges:
                         lookups.extend([a0 - 1, a0, a1 - 1, a1])
                         if depth < 2 and a1 - a0 > 2 and rng.chance(1, 2):
@@ -109,7 +118,7 @@ def _gen_file(rng, wellformed):
             la = addr
             while la < addr + size:
                 ls = rng.range(1, max(1, size // 3))
-                lines.append("%x %x %d %d" % (la, min(ls, addr + size - la), rng.below(3000), rng.below(max(1, nfiles + (0 if wellformed else 1)))))
+                lines.append("%x %x %d %d" % (la, min(ls, addr + size - la), rng.below(3000), fid(rng.below(max(1, nfiles + (0 if wellformed else 1))))))
                 lookups += [la, la + 1]
                 la += ls
                 if rng.chance(1, 5):
